@@ -513,6 +513,14 @@ func (wk *worker) stepwise(ctx, like sdk.Context) (sdk.Context, *phases) {
 	return c, ph
 }
 
+func firstLines(s string, n int) string {
+	l := strings.Split(s, "\n")
+	if len(l) > n {
+		l = l[:n]
+	}
+	return strings.Join(l, " <- ")
+}
+
 func haltClass(msg string) string {
 	switch {
 	case strings.Contains(msg, "negative coin amount"), strings.Contains(msg, "negative"):
@@ -561,7 +569,7 @@ func (wk *worker) evaluate(t Tuple, fullHash bool) *verdict {
 		if mod == "" {
 			engine.Fatal3("C14: whole-app BeginBlocker halted (%s) but the module-by-module execution did not; tuple %s", aHalt, t)
 		}
-		v.violate("begin-block-halt:"+mod+":"+haltClass(ph.halt), "whole-app BeginBlocker halts the chain in module %q: %s | tuple: %s", mod, aHalt, t)
+		v.violate("begin-block-halt:"+mod+":"+haltClass(ph.halt), "whole-app BeginBlocker halts the chain in module %q: %s | tuple: %s", mod, firstLines(aHalt, 4), t)
 		v.saw("halt:" + mod)
 		return v
 	}
